@@ -5,52 +5,53 @@ package main
 
 import (
 	"fmt"
-	"runtime"
-	"runtime/debug"
 	"go/ast"
 	"go/constant"
 	"go/token"
 	"go/types"
+	"runtime"
+	"runtime/debug"
 	"sort"
 	"strings"
+	"unicode/utf8"
 
 	"golang.org/x/tools/go/ssa"
 )
 
 type Obligation struct {
-	Unit    *Unit
-	Name    string // kind/text (function prefix added on report)
-	Kind    string
-	Text    string
-	Pos     token.Pos
-	Props   []string
-	Asserts []Term
-	Goal    Term
-	Canary  bool
-	Result  SolverResult
-	Trace   []string
-	Entry   map[string]Value // parameter name → entry value (for model extraction)
-	EntryHeap map[string]Term
+	Unit       *Unit
+	Name       string // kind/text (function prefix added on report)
+	Kind       string
+	Text       string
+	Pos        token.Pos
+	Props      []string
+	Asserts    []Term
+	Goal       Term
+	Canary     bool
+	Result     SolverResult
+	Trace      []string
+	Entry      map[string]Value // parameter name → entry value (for model extraction)
+	EntryHeap  map[string]Term
 	FrameField string // Go field name for frame obligations on struct fields
 }
 
 type Unit struct {
-	eng      *Engine
-	fn       *ssa.Function
-	key      string
-	spec     *FuncSpec
-	obls     []*Obligation
-	paths    int
-	errs     []string
-	props    []string
-	maxPaths int
-	safety   bool // generate safety obligations
-	entryVals map[string]Value
-	houdini  *houdiniRun
-	noHoudini bool
-	inferred map[string][]string // loop → inferred invariant names (reported)
+	eng         *Engine
+	fn          *ssa.Function
+	key         string
+	spec        *FuncSpec
+	obls        []*Obligation
+	paths       int
+	errs        []string
+	props       []string
+	maxPaths    int
+	safety      bool // generate safety obligations
+	entryVals   map[string]Value
+	houdini     *houdiniRun
+	noHoudini   bool
+	inferred    map[string][]string // loop → inferred invariant names (reported)
 	houdiniDead map[string]map[string]bool
-	vacChecked map[string]bool
+	vacChecked  map[string]bool
 }
 
 type loopInfo struct {
@@ -562,7 +563,14 @@ func (st *State) strLit(s string) Term {
 		st.assume(And(cs...))
 	}
 	e.litStrs[name] = s
-	return MkStr4(arr, IntLit(0), IntLit(int64(len(s))), IntLit(0))
+	lt := MkStr4(arr, IntLit(0), IntLit(int64(len(s))), IntLit(0))
+	if pf := e.specs.Pures["prelude.validUTF8"]; pf != nil && utf8.ValidString(s) {
+		// a literal that is valid UTF-8 satisfies the (otherwise uninterpreted) predicate of the catalogue
+		fn := "pf_prelude_validUTF8"
+		e.declare(fn, fmt.Sprintf("(declare-fun %s (%s) Bool)", fn, SStr))
+		st.assume(app(SBool, fn, lt))
+	}
+	return lt
 }
 
 func trunc(s string, n int) string {
